@@ -398,6 +398,64 @@ def gen_set(rng):
     return sorted(names)
 
 
+FUNCTION_TWINS = [("<func>rhs.a", "<func>rhs_a"), ("<func>Flux", "<func>flux"), ("<func>f^", "<func>f_"),
+                  ("<func>_g", "<func>g"), ("<func>stage-1", "<func>stage_1"),
+                  ("<func>" + "q" * 70, "<func>" + "q" * 69 + "_"), ("<func>f", "<func>g")]
+
+
+def check_function_twins(rec):
+    """End to end through the Fortran generator: a method that calls two registered functions whose names are
+    confusable (same argument kinds) must come out with both functions' bodies, reached through different
+    subroutines."""
+    import re
+    import dagrt.codegen.fortran as f
+    from dagrt.function_registry import base_function_registry, register_ode_rhs
+    from dagrt.language import CodeBuilder, DAGCode
+    from pymbolic import var
+    for a, b in FUNCTION_TWINS:
+        for first, second in ((a, b), (b, a)):
+            wit = {"function_twins": [first, second]}
+            with CodeBuilder("primary") as cb:
+                cb("k1", var(first)(0, var("<state>y")))
+                cb("k2", var(second)(0, var("<state>y")))
+                cb("<state>y", "k1 + 10*k2")
+            dag = DAGCode.from_phases_list([cb.as_execution_phase("primary")], "primary")
+            freg = base_function_registry
+            for k, fid in enumerate((first, second)):
+                freg = register_ode_rhs(freg, "ytype", identifier=fid, input_names=("y",))
+                freg = freg.register_codegen(fid, "fortran", f.CallCode(
+                    "\n                ${result} = %d*${y} ! BODY-OF-%d\n                " % (k + 2, k)))
+            try:
+                text = f.CodeGenerator("twins", function_registry=freg, user_type_map={
+                    "ytype": f.ArrayType((2,), f.BuiltinType("real*8"), index_vars="idx")})(dag)
+            except Exception as ex:
+                rec.violation(f"fortran-generator-raises-{type(ex).__name__}-on-confusable-function-names",
+                              f"{first!r} / {second!r}: {ex}", wit)
+                continue
+            rec.count("function_twin_modules_generated")
+            rec.case(["function-twins", first, second], nontrivial=True)
+            missing = [k for k in (0, 1) if f"BODY-OF-{k}" not in text]
+            if missing:
+                rec.violation("fortran-function-body-missing-for-confusable-names",
+                              f"{first!r} / {second!r}: the body of function #{missing[0]} is not in the module", wit)
+                continue
+            text = re.sub(r"&[ \t]*\n[ \t]*", " ", text)       # (continued lines joined)
+            subs = re.findall(r"^\s*subroutine\s+(drtf_\w+)", text, re.M | re.I)
+            low = [x.lower() for x in subs]
+            if len(set(low)) != len(low):
+                rec.violation("fortran-function-subroutines-collide", f"{first!r} / {second!r}: {subs}", wit)
+                continue
+            called = set(x.lower() for x in re.findall(r"call\s+(drtf_\w+)", text, re.I))
+            if len(called) < 2:
+                rec.violation("fortran-confusable-functions-called-through-one-subroutine",
+                              f"{first!r} / {second!r}: calls go to {sorted(called)}", wit)
+                continue
+            for x in subs:
+                if len(x) > 63:
+                    rec.violation("fortran-function-subroutine-name-too-long", f"{x} ({len(x)} characters)", wit)
+                    break
+
+
 def run_shard(shard, rec):
     inv = Inv(rec)
     inv.attach()
@@ -423,6 +481,8 @@ def run_shard(shard, rec):
             rec.cmax("max_exhaustive_name_length", shard["maxlen"])
         else:
             rng = random.Random(shard["seed"])
+            if shard["seed"].endswith(":1"):
+                check_function_twins(rec)
             if shard["seed"].endswith(":0"):
                 for names in boundary_sets():
                     for order in (names, names[::-1]):
@@ -484,6 +544,9 @@ def replay(witness, rec):
     inv = Inv(rec)
     inv.attach()
     try:
+        if "function_twins" in witness:
+            check_function_twins(rec)
+            return
         if "phases" in witness:
             check_python_phases([[tuple(x) for x in ph] for ph in witness["phases"]], rec)
             rec.case(witness)
